@@ -867,4 +867,10 @@ def _is_ctor_call(e):
         nm = norm(e.func).split(".")[-1]
         if nm[:1].isupper() and nm not in ("TypeVar", "Union", "Optional", "Dict", "List", "Tuple", "Set", "Any", "Generic", "IO", "NewType"):
             return True
+        # lower-case factories of the standard library whose result carries state
+        if nm in ("deque", "defaultdict", "bytearray", "array", "dict", "list", "set", "local", "getcontext", "compressobj", "decompressobj", "md5", "sha256", "sha1", "new", "count", "iter", "cycle", "localcontext"):
+            return True
+    # `factory(...)()`: an instance of a class looked up at import time (codecs.getincrementaldecoder('utf-8')())
+    if isinstance(e, ast.Call) and isinstance(e.func, ast.Call):
+        return True
     return False
